@@ -2453,7 +2453,13 @@ impl Connection {
                         }
                     }
 
-                    if !self.state.is_closed() {
+                    // Retry and Version Negotiation packets carry no packet protection: they are
+                    // accounted for, if at all, once their own checks have passed
+                    let unprotected = matches!(
+                        packet.header,
+                        Header::Retry { .. } | Header::VersionNegotiate { .. }
+                    );
+                    if !self.state.is_closed() && !unprotected {
                         let spin = match packet.header {
                             Header::Short { spin, .. } => spin,
                             _ => false,
@@ -2583,7 +2589,7 @@ impl Connection {
                     return Ok(());
                 }
 
-                if self.total_authed_packets > 1
+                if self.total_authed_packets > 0
                             || packet.payload.len() <= 16 // token + 16 byte tag
                             || !self.crypto.is_valid_retry(
                                 self.rem_cids.active(),
@@ -2604,6 +2610,9 @@ impl Connection {
 
                 trace!("retrying with CID {}", rem_cid);
                 let client_hello = state.client_hello.take().unwrap();
+                // Only a Retry whose integrity tag verified counts as a packet from the server; an
+                // invalid one must not stop the genuine Retry from being accepted later
+                self.on_packet_authenticated(now, SpaceId::Initial, None, None, false, false);
                 self.retry_src_cid = Some(rem_cid);
                 self.rem_cids.update_initial_cid(rem_cid);
                 self.rem_handshake_cid = rem_cid;
@@ -2780,7 +2789,7 @@ impl Connection {
                 Ok(())
             }
             Header::VersionNegotiate { .. } => {
-                if self.total_authed_packets > 1 {
+                if self.total_authed_packets > 0 {
                     return Ok(());
                 }
                 let supported = packet
